@@ -387,7 +387,7 @@ class Extractor:
                 ctext += "    %s\n" % kind + "".join("        %s,\n" % v for v in cl_)
         if contract_block and ctext:
             raise TemplateError("fn %s: both contract: file and inline clauses" % fname)
-        return sig + "\n" + (contract_block or ctext) + body + "\n"
+        return "/*@uc:%s*/ " % fname + sig + "\n" + (contract_block or ctext) + body + "\n"
 
     # ------------------------------------------------------------------
     def expand(self, path, depth=0):
